@@ -21,6 +21,9 @@ def tag(v):
 class _Other:
     """an object of an undocumented type"""
 
+    def __repr__(self):
+        return "<other>"
+
 
 def qvar(v):
     if isinstance(v, list):
@@ -266,7 +269,28 @@ def oom_url_sweep(s, nmax):
     return res
 
 
+def query_arg_immutable(base, q):
+    """with_query / extend_query / update_query leave their argument object unchanged"""
+    u = URL(base)
+    for form in (0, 1):
+        for name in ("with_query", "extend_query", "update_query"):
+            arg = qarg(q, form)
+            def shape(a):
+                if isinstance(a, MultiDict):
+                    return ("md", repr(list(a.items())))
+                return (type(a).__name__, repr(a))
+            snap = shape(arg)
+            try:
+                getattr(u, name)(arg)
+            except (TypeError, ValueError):
+                pass
+            if shape(arg) != snap:
+                return False
+    return True
+
+
 def register(fn):
+    fn(query_arg_immutable)
     fn(oom_sweep)
     fn(oom_url_sweep)
     fn(copy_probe)
